@@ -62,9 +62,13 @@ pub fn read_job(path: &str) -> Value {
 
 /// ASCII-only tag from an error message (TLC's Json module mangles non-ASCII).
 pub fn err_class(msg: &str) -> String {
-    let m = msg.to_ascii_lowercase();
+    // verbose errors append the parser state and the grammar text: classify the message proper
+    let head = msg.split("\n<state>").next().unwrap_or(msg);
+    let m = head.to_ascii_lowercase();
     let c = if m.starts_with("panic:") || m.contains("panic:") {
         "panic"
+    } else if m.contains("noextensionbias") {
+        "empty"
     } else if m.contains("out of range") {
         "range"
     } else if m.contains("rollback") {
